@@ -46,7 +46,7 @@ static std::vector<long> g_expected_row_iter;
 #include <mutex>
 static std::map<const cell*, bool> g_pass_complete;
 static std::mutex g_pass_mu;
-static double g_lmin = 0;
+static double g_lmin = 0, g_T = 0;
 static void on_mesh_op(int phase, const char* op, cell* c, long, long, long, long, double v1, double v2) {
     if (phase == 0 || std::strcmp(op, "pass")) return;
     std::lock_guard<std::mutex> lk(g_pass_mu);
@@ -204,6 +204,7 @@ static void on_event(const char* ev, const void* obj, long a, long b, long c, do
         bool time_ok = true;
         if (k == 8) { const double want = g_time_before + g_dt; const double got = g_solver->time(); time_ok = std::memcmp(&want, &got, sizeof want) == 0; }
         o.key("time_ok").b(time_ok);
+        o.key("before_T").b(k != 0 || g_solver->time() < g_T);      // an iteration starts only while the duration has not been reached
         cells_json(o, k);
         couplings_json(o);
         o.end_obj();
@@ -246,6 +247,7 @@ int main(int argc, char** argv) {
     gp.enable_edge_swap_operation_ = S["swap"].boolean();
     gp.damping_coefficient_ = S["damping"].d();
     gp.simulation_duration_ = S["T"].d();
+    g_T = gp.simulation_duration_;
     gp.sampling_period_ = S["S"].d();
     gp.time_step_ = S["dt"].d();
     gp.min_edge_len_ = S["lmin"].d();
@@ -348,6 +350,7 @@ int main(int argc, char** argv) {
         o.obj().key("e").str("end").key("outcome").str(outcome).key("what").str(what);
         o.key("iter").i(solv.iteration()).key("time").str(dstr(solv.time()));
         o.key("T_reached").b(solv.time() >= gp.simulation_duration_);
+        o.key("time_eq_T").b(solv.time() == gp.simulation_duration_);
         o.key("ncells").i(solv.cells().size());
         // C15: a digest of the final state of every cell (bit patterns of positions and momenta, connectivity)
         if (S.has("dump_positions") && S["dump_positions"].boolean()) {
